@@ -168,7 +168,7 @@ class Session:
             ('collect_charge', lambda: d.collect_charge(p['C1'], [500, 600, 700], [0.5, 0.6, 0.7]), ['C1'], ()),
             ('collect_charge_spectrum', lambda: d.collect_charge(p['C1'], [402, 405, 409], p['S1']), ['C1', 'S1'], ()),
             ('collect_charge_bayer', lambda: d.collect_charge_bayer(p['C1'][:, :4, :4], [500, 600, 700], [.1, .2, .3], [.4, .5, .6], [.7, .8, .9],
-                                                                   [['R', 'G'], ['G', 'B']], oversample=2), ['C1'], ()),
+                                                                   'RGGB', oversample=2), ['C1'], ()),
             ('pixel', lambda: d.pixel(p[arr], oversample=2), [arr], (2,)),
             ('pixelate', lambda: d.pixelate(p['A1'][:4, :4], oversample=2), ['A1'], (2,)),
             ('adc', lambda: d.adc(p['E1'], gain=0.5, saturation_capacity=300), ['E1'], (0.5, 300)),
